@@ -45,3 +45,8 @@ check("C02", "exploration", "small-scope exhaustive enumeration of log-density v
       "Every multiset of N in {2,3,4} log-weights over a 10-value alphabet (ties, -inf, magnitudes +-1e5 and 700/-745 outside exp()'s range), every distinct permutation, three ways of splitting the weight over likelihood/prior/proposal, constant shifts, three namespaces and two float widths is passed to the real Samples class; log_w, log_evidence, ESS (range, efficiency*N), scaled weights, the relative evidence error (finite and accurate) and the utils helpers are compared with mpmath definitions with rounding-aware tolerances; permutation invariance and the shift law are checked pairwise; rejection_sample is run for every combination of per-row uniforms straddling the acceptance boundary.",
       "Finite alphabet; jax/torch reduced in quick; linear-space evidence/weights may overflow legitimately.",
       "DESIGN.md 4/C02", engine="explorer")
+
+check("C04", "exploration", "small-scope exhaustive enumeration of transform configurations x bounds x shapes x positions x namespaces x dtypes against analytic (mpmath) maps/log-Jacobians and finite-difference Jacobians of the library's own map",
+      "Every transform class and every on/off combination inside CompositeTransform/FlowTransform (periodic subset x bounded_to_unbounded x logit|probit x affine), plus FlowPreconditioningTransform with a zuko flow, is run on a Latin arrangement of interior positions down to the clipping margin for bounds over 9 orders of magnitude, d=1..3, batch 1/3/7, three namespaces and two float widths: round trip, forward log-Jacobian vs the analytic value and vs slogdet of the central-difference Jacobian, inverse log-Jacobian = -forward, fit == forward-after-fit; periodic wrapping is run on 18 special reals per interval (bounds, bound -+ 1e-20, +-kP, +-1e12) and must land in [lower, upper), congruent mod P, with zero log-Jacobian.",
+      "Finite alphabets; tolerance = 8 x sensitivity of the reference to one ulp of the unit-interval coordinate in the dtype under test + absolute floor; finite differences in float64 only.",
+      "DESIGN.md 4/C04")
